@@ -91,7 +91,7 @@ PROPS = {
         timeout={"quick": 900, "thorough": 3600},
     ),
     "C19": dict(
-        lean_modules=["Liftbridge.Props.C19"],
+        lean_modules=["Liftbridge.Props.C19", "Liftbridge.Props.GoTelemetry"],
         gen_sources=["server/telemetry/telemetry.go", "server/config.go", "server/server.go"],
         runs=[dict(go_pkg="./server", test="TestVerifC19"), dict(go_pkg="./server", test="TestVerifC19LateSwitch")],
         level="proof",
